@@ -84,3 +84,12 @@ Print Assumptions C06_every_reachable_item_is_checked.
 Theorem C06_parsed_trees_are_shaped : forall e t, parse e = ParseOk t -> sh t.
 Proof. exact parse_sh. Qed.
 Print Assumptions C06_parsed_trees_are_shaped.
+
+From WaxProofs Require Import RuleZomFacts.
+
+(* the same for the rule "no two zero-or-more wildcards become adjacent": inside one concatenation the parser enforces it, across the
+   borders of alternations the branch check does, through the same inherited outer context *)
+Theorem C06_built_globs_without_repetitions_have_no_adjacent_zero_or_more_wildcards : forall e t r,
+  build e = BuildOk t r -> rep_free t = true -> forall x, Expands t x -> zchain false x = true.
+Proof. exact built_no_adjacent_zoms. Qed.
+Print Assumptions C06_built_globs_without_repetitions_have_no_adjacent_zero_or_more_wildcards.
